@@ -185,7 +185,11 @@ def run(ctx: Ctx):
             return _same_array(a.args[0], p)
         return False
     cparams = [p for p in call.params if p != "self"]
-    okc = len(rets) == 1 and isinstance(rets[0].value, ast.Call) and attr_chain(rets[0].value.func) == "self._meth_to_call" \
+    # the selector attribute is whatever __call__ calls (`return self.<selector>(array)`), not a fixed name
+    sel_attr = attr_chain(rets[0].value.func) if len(rets) == 1 and isinstance(rets[0].value, ast.Call) else None
+    if not (sel_attr and sel_attr.startswith("self.") and sel_attr.count(".") == 1 and sel_attr.split(".")[1] not in cls.methods):
+        sel_attr = "self._meth_to_call"
+    okc = len(rets) == 1 and isinstance(rets[0].value, ast.Call) and attr_chain(rets[0].value.func) == sel_attr \
         and len(rets[0].value.args) == 1 and len(cparams) == 1 and _same_array(rets[0].value.args[0], cparams[0])
     ctx.ob("R8.1", call, rets[0] if rets else "__call__", okc,
            "a call evaluates the selected method on the array it is given", node=rets[0] if rets else call.node)
@@ -203,9 +207,13 @@ def run(ctx: Ctx):
             d = lenv.get(mask_name)
             mask_ok = idx == "R1" and d is not None and isinstance(d, ast.Call) and call_name(d) == "ones" \
                 and norm(d.args[0]) == "len(%s)" % p_fixed
-    ctx.ob("R8.2", init, "unrestrained-fixed mask `%s`" % mask_name, mask_ok,
-           "the mask is True for every fixed atom and cleared exactly at the fixed-side restraint indices (column 0)",
-           node=init.node)
+    if mask_name is None:
+        ctx.ob("R8.2", init, "unrestrained-fixed mask", True, "the mask of unrestrained fixed atoms is not built as ones(...) with "
+               "the restrained indices cleared; the closed forms are not decided on this tree", undecided=True, node=init.node)
+    else:
+        ctx.ob("R8.2", init, "unrestrained-fixed mask `%s`" % mask_name, mask_ok,
+               "the mask is True for every fixed atom and cleared exactly at the fixed-side restraint indices (column 0)",
+               node=init.node)
     FIX, MOB0 = ast.Name("FIXED", ast.Load()), ast.Name("MOBILE0", ast.Load())
     if mask_name:
         lenv[mask_name] = ast.Name("MASK", ast.Load())
@@ -233,10 +241,15 @@ def run(ctx: Ctx):
         if len(lst) == 1 and not lst[0][2]:
             aenv[ch] = _subst(_subst(lst[0][0].value, lenv), aenv)
     aenv = {k: _subst(v, aenv) for k, v in aenv.items()}
-    fx_r = norm(aenv.get("self._mol1_restriction", ast.Constant(None)))
-    fx_u = norm(aenv.get("self._mol1_not_restriction", ast.Constant(None)))
-    ctx.ob("R8.2", init, "fixed restrained = %s ; fixed unrestrained = %s" % (fx_r, fx_u),
-           fx_r == "FIXED[R1]" and fx_u == "FIXED[MASK]",
+    if mask_name is None:
+        return
+    # the two cached slices of the fixed array, whatever the attributes are called
+    vals_ = {k_: norm(v_) for k_, v_ in aenv.items() if k_.startswith("self.")}
+    fx_r = next((v_ for v_ in vals_.values() if v_ == "FIXED[R1]"), None)
+    fx_u = next((v_ for v_ in vals_.values() if v_ == "FIXED[MASK]"), None)
+    other_fx = sorted(v_ for v_ in vals_.values() if v_.startswith("FIXED[") and v_ not in ("FIXED[R1]", "FIXED[MASK]"))
+    ctx.ob("R8.2", init, "fixed restrained = %s ; fixed unrestrained = %s%s" % (fx_r, fx_u, (" ; other: %s" % other_fx) if other_fx else ""),
+           fx_r == "FIXED[R1]" and fx_u == "FIXED[MASK]" and not other_fx,
            "restrained fixed atoms are the fixed array indexed by column 0; unrestrained ones by the mask", node=init.node)
     ctx.ob("R8.2", init, "set of restrained mobile atoms = %s" % norm(aenv.get("self.set_restriction2", ast.Constant(None))),
            norm(aenv.get("self.set_restriction2", ast.Constant(None))) == "set(R2)",
@@ -279,7 +292,7 @@ def run(ctx: Ctx):
     for p in enum_paths(init.node.body):
         sel = None
         for st in p.stmts():
-            if isinstance(st, ast.Assign) and attr_chain(st.targets[0]) == "self._meth_to_call":
+            if isinstance(st, ast.Assign) and attr_chain(st.targets[0]) == sel_attr:
                 sel = norm(st.value).replace("self.", "")
         conds = []
         for t, o in p.conds():
